@@ -133,7 +133,15 @@ def leanchecker(modules):
     """Independent re-check of the compiled property, lemma and table-theorem modules (thorough tier)."""
     mods = [m for m in barril_closure(modules)
             if m.startswith(("Barril.Props.", "Barril.Proofs.", "Barril.Gen.Thm"))]
+    mods += [m for m in modules if m.startswith("Barril.Bridge.") and m not in mods]
     rc, out, err, dt = run(["lake", "env", "leanchecker"] + mods, timeout=3000)
+    if rc != 0 and not (out + err).strip():
+        # a checker that dies without a message (killed under memory pressure: it needs up to 5 GB) has not rejected
+        # anything; once more, then it is an infrastructure error - never a verdict
+        rc, out, err, dt2 = run(["lake", "env", "leanchecker"] + mods, timeout=3000)
+        dt += dt2
+        if rc != 0 and not (out + err).strip():
+            raise Infra("leanchecker exited %d twice without any output (killed?)" % rc)
     return rc == 0, (out + err)[-600:], len(mods), dt
 
 
@@ -269,7 +277,7 @@ def check(pid, tier, seed):
             for m in list(prop.LEAN_MODULES) + bridge_mods:
                 obligations += theorems_of(m)
         if ok and tier == "thorough":
-            lc_ok, lc_log, lc_n, lc_dt = leanchecker(list(prop.LEAN_MODULES))
+            lc_ok, lc_log, lc_n, lc_dt = leanchecker(list(prop.LEAN_MODULES) + bridge_mods)
             lc_info = dict(modules=lc_n, ok=lc_ok, seconds=round(lc_dt, 1))
             if not lc_ok:
                 breaks.append(("audit", "leanchecker rejects the compiled modules: " + lc_log))
